@@ -303,7 +303,8 @@ REQUIRED_V2 = ["blocks n=1", "blocks n=2^a", "blocks n=2^a+1", "blocks n=2^a-1",
               [f"pl/B={a}" for a in (1, 2, 4, 8)] + ["short last block, full last piece", "full last block, short last piece"]
 REQUIRED_CREATORS = ["single file", "flat", "nested", "full-path order != per-directory order",
                      "identical files (shared root)", ">= 2 multi-piece files whose roots sort against tree order",
-                     "empty directory present"] + ["file symlink " + s for s in trees.LINK_SHAPES]
+                     "empty directory present"] + ["file symlink " + s for s in trees.LINK_SHAPES] + trees.NAME_CLASSES + \
+                    ["payload path has a glob metacharacter", "payload path has a decomposed (NFD) name"]
 
 
 def boundary_sizes(pl, b, limit=LIMIT):
@@ -642,7 +643,10 @@ def gen_case(salt, i):
     """content tree number i of a run: (pl, tree, empty_dirs, options, classes)"""
     rng = random.Random(f"{salt}:e2e:{i}")
     pl = rng.choice([16384, 16384, 32768, 65536])
-    tree, cl = trees.gen_tree(rng, pl, single_prob=1.0 if i % 6 == 0 else 0.08)
+    # every fourth tree carries all the aimed name groups of trees.add_aimed_names (decomposed Unicode next to a sibling that
+    # sorts between the two spellings, glob metacharacters in directory and file names, mixed-case siblings), the others now and then
+    tree, cl = trees.gen_tree(rng, pl, single_prob=1.0 if i % 6 == 0 else 0.08,
+                              name_groups=trees.NAME_GROUPS if i % 4 == 3 else None)
     empty_dirs = []
     single = list(tree) == [()]
     if not single:
@@ -667,6 +671,7 @@ def gen_case(salt, i):
             tree = flat
             cl.discard("full-path order != per-directory order")
     cl -= {"flat", "nested", "identical files"}      # recomputed from the final tree by classify_tree
+    cl = (cl - set(trees.NAME_CLASSES)) | trees.classify_names(tree)      # the names of the final tree
     opts = dict(rng.choice(OPTIONS))
     if not single and (i % 4 == 1 or rng.random() < 0.12):
         # symbolic links to files of the payload (values ("symlink", target) of the tree, see trees.add_links): the creators
@@ -690,7 +695,15 @@ REQUIRED_SCALE = ["scale: piece length %d MiB" % n for n in (2, 4, 8, 16, 32)] +
                  ["scale: more than %d MiB of padding after a file" % n for n in (1, 4, 8, 16)] + \
                  [f"scale: route {r} progress {p}" for r in ("library", "command line") for p in (0, 1, 2)] + \
                  ["scale: --piece-length given as the exponent", "scale: --piece-length given as bytes"]
-RULE_SCALE = (
+RULE_NAMES = (
+    "  NAMES (round 7): the shared pools of trees.py hold decomposed (NFD) Unicode names, names with the glob metacharacters * ? [ ] "
+    "and mixed-case siblings; every fourth end-to-end tree (and a tenth of the trees of the creators unit correspondence, flavour "
+    "'names') carries the aimed groups -- a decomposed name next to a sibling that sorts between its decomposed and its composed "
+    "spelling (A + U+030A < B < U+00C5), as files and as directories, a directory 'Album [FLAC]' holding 'cd[1]' holding a file, a "
+    "file 'a*b' next to 'aXb', 'README.txt' next to 'data.bin' -- and the payload directory / file itself is named in turn "
+    "'payload', 'Album [FLAC]', a decomposed name, 'pay*load?', 'PayLoad.D': the file tree must list every name byte for byte as "
+    "it is on disk (the judge reads the disk with os.listdir and compares bytes).")
+RULE_SCALE = RULE_NAMES + (
     "  AT SCALE (harness/scale.py; judged by the same reference / mutual comparison as the small cases, never sent to the extracted "
     "models): (a) every v2-capable hasher on one file with piece lengths 2 .. 32 MiB -- a size that is a multiple of 1 MiB but not "
     "of the piece length, almost a whole piece of padding, a last piece just above / exactly at 4 MiB, more than 8 MiB in the last "
@@ -733,6 +746,14 @@ def gen_scale_case(salt, j):
     cl.add("scale: single file" if list(tree) == [()] else "scale: directory")
     opts = dict(rng.choice(OPTIONS))
     return pl, tree, [], opts, set(cl)
+
+
+def root_name(i, single):
+    """name of the payload of tree number i (trees.ROOT_NAMES in turn; the payloads at scale are all called payload)"""
+    return ("payload.bin" if single else "payload") if i >= SCALE0 else trees.root_name(i, single)
+
+
+root_name_classes = trees.root_name_classes
 
 
 def has_changed_part(i):
@@ -898,7 +919,8 @@ def build_case(tmp, salt, i, kinds, cli_versions):
             routes[label]["piece_length_argument"] = str(pl.bit_length() - 1) if (i + n) % 2 == 0 else str(pl)
         return routes[label]
     single = list(tree) == [()]
-    name = "payload.bin" if single else "payload"
+    name = root_name(i, single)
+    base = set(base) | root_name_classes(name)
     root = os.path.join(tmp, f"c{i}", name)
     write_case(root, ltree, empty_dirs)
     metas = {}
